@@ -138,6 +138,8 @@ class Reductions(Contract):
                     for axis in (([None, 0, 1] if fn in ('sum', 'cumsum', 'prod', 'cumprod', 'max', 'min') else ([-1] if fn == 'sort' else [None]))):
                         for route in ('np', 'method'):
                             yield dict(fn=fn, fmt=list(fm), shape=list(shape), axis=axis, route=route, forder=True)
+                        if shape == (2, 3):
+                            yield dict(fn=fn, fmt=list(fm), shape=list(shape), axis=axis, route='np', der='T')      # the operand is x.T of a transposed base (stale caches)
         # a bound that is exactly zero (and integer bounds) on either side
         for fm in fms[:3]:
             for bounds in ([0, 1.5], [-0.75, 0], [0, 0], [-1, 1]):
@@ -161,8 +163,11 @@ class Reductions(Contract):
 
     def run(self, cfg, P, inp):
         s, n, f = cfg['fmt']
-        x = make_fxp(P, s, n, f, codes=inp['c'], shape=tuple(cfg['shape']), vdtype=int if cfg.get('vint') else float, status={'inaccuracy': inp['ix']},
-                     forder=bool(cfg.get('forder')))
+        if cfg.get('der'):
+            x = derived_fxp(P, cfg['der'], s, n, f, inp['c'], tuple(cfg['shape']), vdtype=float, status={'inaccuracy': inp['ix']})
+        else:
+            x = make_fxp(P, s, n, f, codes=inp['c'], shape=tuple(cfg['shape']), vdtype=int if cfg.get('vint') else float, status={'inaccuracy': inp['ix']},
+                         forder=bool(cfg.get('forder')))
         b = dict(x.__dict__); v0 = list(elems(x.val))
         fn, axis, route = cfg['fn'], cfg['axis'], cfg['route']
         np = P.np
